@@ -19,14 +19,14 @@ func init() { core.Register(c10{}) }
 func (c10) ID() string    { return "C10" }
 func (c10) Level() string { return "exploration" }
 func (c10) Rule() string {
-	return "cases = (level index|db, index type, shard count in {1,2,3,4,16,64,1024}, key set of 0..300 keys with shared prefixes / 0xff-heavy keys / one-key and empty sets, direction, prefix incl. empty, whole-key and longer-than-key prefixes); per case 6..12 iterators each driven by 5..200 calls of Rewind/Seek/Next/Valid/Key/Value where the first call on a fresh iterator is Rewind or Seek and every Seek target lies at or ahead of the cursor in iteration order (on an exhausted iterator only targets beyond the last key); after EVERY call (Valid, Key, Value) is compared with a cursor over the sorted snapshot taken from the model at creation; between calls the harness overwrites, deletes and inserts keys before/after the cursor, which must not change any output; ListKeys and Fold (incl. early stop) must equal the same ordered snapshot. Non-trivial: iterator with >=2 non-empty shards, >=1 Seek after a Next and >=1 Rewind after exhaustion; distinct = hash of (level, type, shards, keys, call log)"
+	return "cases = (level index|db, index type, shard count in {1,2,3,4,16,64,1024}, key set of 0..300 keys with shared prefixes / 0xff-heavy keys / one-key and empty sets, plus large populations of 4 Ki..300 K keys sized at and around powers of two and round decimal numbers, direction, prefix incl. empty, whole-key and longer-than-key prefixes); per case 6..12 iterators each driven by 5..200 calls of Rewind/Seek/Next/Valid/Key/Value where the first call on a fresh iterator is Rewind or Seek and every Seek target lies at or ahead of the cursor in iteration order (on an exhausted iterator only targets beyond the last key); the first iterator of every case (the first two over a large population) starts with a complete Rewind..Next walk to exhaustion; after EVERY call (Valid, Key, Value) is compared with a cursor over the sorted snapshot taken from the model at creation; between calls the harness overwrites, deletes and inserts keys before/after the cursor, which must not change any output; ListKeys and Fold (incl. early stop) must equal the same ordered snapshot. Non-trivial: iterator with >=2 non-empty shards, >=1 Seek after a Next and >=1 Rewind after exhaustion; distinct = hash of (level, type, shards, keys, call log)"
 }
 func (c10) Assumptions() []string {
 	return []string{"Seek to a target behind the cursor is never generated (unclaimed)", "Key/Value/Next on a never-positioned (fresh) iterator are not generated: position first with Rewind or Seek",
 		"Value() is only called while Valid()", "sequential: writes are interleaved between calls, not concurrent with them"}
 }
 func (c10) Required() []string {
-	return []string{"iter_calls_compared", "seeks", "rewinds_after_exhaustion", "writes_interleaved", "listkeys_compared", "fold_compared", "iters_index_level", "iters_db_level"}
+	return []string{"iter_calls_compared", "seeks", "rewinds_after_exhaustion", "writes_interleaved", "full_walks", "cases_large_population", "listkeys_compared", "fold_compared", "iters_index_level", "iters_db_level"}
 }
 
 type c10Case struct {
@@ -64,10 +64,52 @@ func (c10) Cases(tier string, seed uint64) []core.Case {
 		out = append(out, core.Case{Index: i, ID: fmt.Sprintf("c10-%05d", i), Seed: r.U64(),
 			Data: c10Case{Level: lvl, Typ: core.IndexTypes[(i/2)%3], Shards: shards[(i/6)%len(shards)], NKeys: nk, IO: byte(r.Intn(2)), KeyMode: r.Intn(3)}})
 	}
+	// large populations: sizes at and around powers of two and round decimal numbers, where
+	// size-gated code paths (parallel snapshots, resized tables, spilled buffers) switch on
+	nl := 10
+	if tier == "thorough" {
+		nl = 600
+	}
+	bases := []int{1 << 16, 1 << 17, 100000, 1 << 14, 1 << 15, 1 << 12, 50000, 1 << 18, 10000, 1 << 13}
+	for j := 0; j < nl; j++ {
+		i := n + j
+		nk := bases[j%len(bases)]
+		switch (j / len(bases)) % 4 {
+		case 0:
+			nk += r.Range(0, 2)
+		case 1:
+			nk += r.Range(3, 5000)
+		case 2:
+			nk -= r.Range(1, 2)
+		default:
+			nk = r.Range(1<<12, 300000)
+		}
+		lvl := "index"
+		if j%2 == 1 {
+			lvl = "db"
+		}
+		out = append(out, core.Case{Index: i, ID: fmt.Sprintf("c10-L%04d", j), Seed: r.U64(),
+			Data: c10Case{Level: lvl, Typ: core.IndexTypes[(j/2)%3], Shards: []int{16, 2, 64, 1024, 3, 1}[(j/3)%6], NKeys: nk, IO: byte(r.Intn(2)), KeyMode: 3}})
+	}
 	return out
 }
 
 func c10Keys(r *core.Rng, n, mode int) [][]byte {
+	if mode == 3 {
+		// many distinct keys: a short shared prefix family + 5 mixed bytes
+		seen := make(map[string]bool, n)
+		out := make([][]byte, 0, n)
+		pre := []string{"u", "u/", "v", ""}
+		for x := r.U64(); len(out) < n; x++ {
+			h := core.Mix(x, 0x10c)
+			k := append([]byte(pre[h&3]), byte(h>>8), byte(h>>16), byte(h>>24), byte(h>>32), byte(h>>40))
+			if !seen[string(k)] {
+				seen[string(k)] = true
+				out = append(out, k)
+			}
+		}
+		return out
+	}
 	seen := map[string]bool{}
 	var out [][]byte
 	alpha := []byte("abk")
@@ -163,6 +205,9 @@ func (c10) Run(c core.Case, w *core.Worker) core.Result {
 			model[string(k)] = kvPair{k: append([]byte{}, k...), p: p}
 		} else {
 			v := core.FillValue(r.U64(), r.Range(0, 300))
+			if cc.KeyMode == 3 {
+				v = v[:len(v)%9]
+			}
 			if err := db.Put(k, v); err != nil {
 				fail("Put failed: " + err.Error())
 			}
@@ -183,6 +228,9 @@ func (c10) Run(c core.Case, w *core.Worker) core.Result {
 	} else {
 		var err error
 		cfg := core.Config{IndexType: cc.Typ, ShardNum: cc.Shards, FileIO: cc.IO, DataFileSize: 64 << 10}
+		if cc.KeyMode == 3 {
+			cfg.DataFileSize = 1 << 20
+		}
 		db, err = kv.Open(cfg.Options(w.Dir("db")))
 		if err != nil {
 			fail("Open: " + err.Error())
@@ -198,6 +246,14 @@ func (c10) Run(c core.Case, w *core.Worker) core.Result {
 	extra := c10Keys(r, 30, cc.KeyMode) // keys used for interleaved writes
 	nontrivial := false
 	nIters := r.Range(6, 12)
+	if cc.KeyMode == 3 {
+		nIters = r.Range(3, 4)
+		res.Add("cases_large_population", 1)
+		res.Add("keys_in_large_populations", int64(len(keys)))
+		if len(keys) >= 1<<16 {
+			res.Add("cases_with_64Ki_keys_or_more", 1)
+		}
+	}
 	for it := 0; it < nIters && res.Verdict != "violated"; it++ {
 		reverse := r.Chance(1, 2)
 		var prefix []byte
@@ -274,7 +330,23 @@ func (c10) Run(c core.Case, w *core.Worker) core.Result {
 			}
 			return true
 		}
+		fullWalk := it == 0 || (cc.KeyMode == 3 && it == 1)
 		pv, st = core.Safe(func() {
+			if fullWalk {
+				// a complete walk: Rewind, then Next until exhausted, every position compared
+				ut.Rewind()
+				pos = 0
+				calllog = append(calllog, "Rewind (full walk)")
+				for cmpState("Rewind/Next of the full walk") && pos < len(snap) {
+					ut.Next()
+					pos++
+				}
+				if res.Verdict == "violated" {
+					return
+				}
+				res.Add("full_walks", 1)
+				res.Add("full_walk_positions", int64(len(snap)))
+			}
 			for ci := 0; ci < ncalls; ci++ {
 				// choose a call
 				var call string
